@@ -67,7 +67,17 @@ func buildC35World(pool *gen.Pool, rng *rand.Rand, n int) *c35World {
 
 // c35Faults are the ways the scripted remote can fail to deliver the verified
 // successor for a requested serial.
-var c35Faults = append(append([]string{}, gen.BrokenKinds...), "other-isd", "stale", "ahead", "fetch-error")
+var c35Faults = append(append([]string{}, gen.BrokenKinds...), "other-isd", "stale", "ahead", "fetch-error", c35WriteFault)
+
+// c35WriteFault is the fault kind of the storage seam: the remote delivers the
+// genuine successor, it verifies, and the DB write (InsertTRC) of exactly that
+// serial fails.
+const c35WriteFault = "db-write-error"
+
+// c35DBModes are call-level storage faults (in addition to the per-serial
+// c35WriteFault of a script): the first write of the call fails and later ones
+// work, every write of the call fails, every read of the call fails.
+var c35DBModes = []string{"write-once", "write-always", "read-error"}
 
 // serve returns what the scripted remote answers for serial s under fault
 // kind ("" = the genuine TRC).
@@ -76,7 +86,7 @@ func (w *c35World) serve(kind string, s int) (cppki.SignedTRC, error) {
 		return cppki.SignedTRC{}, fmt.Errorf("remote: no TRC with serial %d", s)
 	}
 	switch kind {
-	case "":
+	case "", c35WriteFault:
 		return w.genuine[s].Signed, nil
 	case "fetch-error":
 		return cppki.SignedTRC{}, fmt.Errorf("remote: scripted fetch failure")
@@ -126,24 +136,86 @@ func (f *c35Fetcher) TRC(_ context.Context, id cppki.TRCID, _ net.Addr) (cppki.S
 	return f.w.serve(kind, int(id.Serial))
 }
 
-// c35DB logs the insertion order on top of the real sqlite back-end.
+// c35DB logs the insertion order on top of the real sqlite back-end and is the
+// storage seam at which faults are injected: writes of scripted serials, the
+// first write, every write or every read of a call fail. A failing write never
+// reaches the back-end. Two flavours: a synthetic error, or the real error of
+// the sqlite back-end for a context that expired inside the call (the write is
+// passed down with a cancelled context).
 type c35DB struct {
 	sqlite.DB
 	inserts []string
+
+	failSerial map[int]bool
+	mode       string // "", or one of c35DBModes
+	viaCtx     bool   // flavour
+	writes     []string
+	nWriteErr  int
+	nReadErr   int
+}
+
+func (d *c35DB) arm(script map[int]string, mode string, viaCtx bool) {
+	d.inserts, d.writes, d.nWriteErr, d.nReadErr = nil, nil, 0, 0
+	d.failSerial, d.mode, d.viaCtx = map[int]bool{}, mode, viaCtx
+	for ser, k := range script {
+		if k == c35WriteFault {
+			d.failSerial[ser] = true
+		}
+	}
+}
+
+func (d *c35DB) fail(ctx context.Context, t cppki.SignedTRC) (bool, error) {
+	d.nWriteErr++
+	d.writes = append(d.writes, t.TRC.ID.String()+":failed")
+	if !d.viaCtx {
+		return false, fmt.Errorf("storage: scripted write failure (database is locked)")
+	}
+	cctx, cancel := context.WithCancel(ctx)
+	cancel()
+	ok, err := d.DB.InsertTRC(cctx, t)
+	if err == nil {
+		panic(fmt.Sprintf("pkitrust: c35: sqlite InsertTRC with a cancelled context did not fail (inserted=%v)", ok))
+	}
+	return false, err
 }
 
 func (d *c35DB) InsertTRC(ctx context.Context, t cppki.SignedTRC) (bool, error) {
+	first := len(d.writes) == 0
+	switch {
+	case d.failSerial[int(t.TRC.ID.Serial)], d.mode == "write-always", d.mode == "write-once" && first:
+		return d.fail(ctx, t)
+	}
 	ok, err := d.DB.InsertTRC(ctx, t)
+	d.writes = append(d.writes, fmt.Sprintf("%s:%v", t.TRC.ID, err == nil))
 	if err == nil && ok {
 		d.inserts = append(d.inserts, t.TRC.ID.String())
 	}
 	return ok, err
 }
 
+func (d *c35DB) SignedTRC(ctx context.Context, id cppki.TRCID) (cppki.SignedTRC, error) {
+	if d.mode == "read-error" {
+		d.nReadErr++
+		if !d.viaCtx {
+			return cppki.SignedTRC{}, fmt.Errorf("storage: scripted read failure (disk I/O error)")
+		}
+		cctx, cancel := context.WithCancel(ctx)
+		cancel()
+		t, err := d.DB.SignedTRC(cctx, id)
+		if err == nil {
+			panic("pkitrust: c35: sqlite SignedTRC with a cancelled context did not fail")
+		}
+		return t, err
+	}
+	return d.DB.SignedTRC(ctx, id)
+}
+
 type c35Step struct {
 	Notify   string
 	Kind     string
 	Script   map[int]string `json:",omitempty"`
+	DBFault  string         `json:",omitempty"` // call-level storage fault
+	DBWrites []string       `json:",omitempty"` // InsertTRC calls reaching the storage seam, with outcome
 	Fetched  []c35Fetch     `json:",omitempty"`
 	Inserted []string       `json:",omitempty"`
 	Err      string         `json:",omitempty"`
@@ -170,6 +242,11 @@ type c35Session struct {
 	latest int
 	hist   *c35Hist
 	dead   bool
+	// storage fault of the next notify call (consumed by it)
+	dbMode   string
+	dbViaCtx bool
+	// the previous notify call was stopped by a storage fault
+	lastStorageFault bool
 }
 
 func newC35Session(r *mon.Run, w *c35World, initial []int, hist *c35Hist) *c35Session {
@@ -257,16 +334,28 @@ func (s *c35Session) notify(id cppki.TRCID, kind string, script map[int]string) 
 	}
 	ctx := monlog.Alternate() // log level is a configuration dimension
 	s.f.script, s.f.log = script, nil
-	s.db.inserts = nil
+	dbMode, viaCtx := s.dbMode, s.dbViaCtx
+	s.dbMode, s.dbViaCtx = "", false
+	s.db.arm(script, dbMode, viaCtx)
+	defer s.db.arm(nil, "", false)
 	prevLatest := s.latest
 
 	// ---- model ----
+	// A TRC counts as stored only if it was delivered, verifies AND its write
+	// succeeded; the first serial for which one of these fails ends the update.
 	firstFault, faultKind := 0, ""
 	if int(id.ISD) == c35ISD && int(id.Base) == 1 && int(id.Serial) > s.latest {
 		for ser := s.latest + 1; ser <= int(id.Serial); ser++ {
 			k := script[ser]
-			if k == "" && ser > s.w.N {
+			if (k == "" || k == c35WriteFault) && ser > s.w.N {
 				k = "unavailable"
+			}
+			switch {
+			case dbMode == "read-error":
+				// the engine cannot even learn its latest TRC
+				k = "db-read-error"
+			case k == "" && (dbMode == "write-once" || dbMode == "write-always"):
+				k = c35WriteFault
 			}
 			if k != "" {
 				firstFault, faultKind = ser, k
@@ -279,7 +368,12 @@ func (s *c35Session) notify(id cppki.TRCID, kind string, script map[int]string) 
 
 	var err error
 	pan, stack := mon.Try(func() { err = s.prov.NotifyTRC(ctx, id) })
-	step := c35Step{Notify: id.String(), Kind: kind, Script: script, Fetched: s.f.log, Inserted: s.db.inserts}
+	step := c35Step{Notify: id.String(), Kind: kind, Script: script, DBFault: dbMode, DBWrites: s.db.writes,
+		Fetched: s.f.log, Inserted: s.db.inserts}
+	if viaCtx && step.DBFault != "" {
+		step.DBFault += "(expired-context)"
+	}
+	nWriteErr, nReadErr := s.db.nWriteErr, s.db.nReadErr
 	if err != nil {
 		step.Err = err.Error()
 		if _, seen := c35FaultErrors[faultKind]; !seen && firstFault > 0 {
@@ -328,6 +422,32 @@ func (s *c35Session) notify(id cppki.TRCID, kind string, script map[int]string) 
 	}
 	s.r.Class(s.hist.Phase + "/" + cls)
 	s.r.Event("notify_" + strings.SplitN(outcome, "+", 2)[0])
+	// ---- storage-seam dimension: what was injected, where ----
+	s.r.EventN("db_write_fault_injected", int64(nWriteErr))
+	s.r.EventN("db_read_fault_injected", int64(nReadErr))
+	prevStorageFault := s.lastStorageFault
+	s.lastStorageFault = false
+	if firstFault > 0 && (faultKind == c35WriteFault || faultKind == "db-read-error") && nWriteErr+nReadErr > 0 {
+		s.lastStorageFault = true
+		what := dbMode
+		if what == "" {
+			what = "write-serial"
+		}
+		where := "last-step"
+		if firstFault < int(id.Serial) {
+			where = "intermediate-step"
+			if nx := firstFault + 1; script[nx] == "" && nx <= s.w.N && dbMode != "write-always" && dbMode != "read-error" {
+				where += "/next-write-would-succeed"
+			}
+		}
+		flavour := "synthetic-error"
+		if viaCtx {
+			flavour = "expired-context"
+		}
+		s.r.Class(fmt.Sprintf("store-fault/%s/%s", what, where))
+		s.r.Class(fmt.Sprintf("store-fault/%s/%s", what, flavour))
+		s.r.Event("store_fault_stopped_update")
+	}
 
 	otherBase := int(id.Base) != 1
 	for _, ser := range sortedKeys(stored) {
@@ -340,7 +460,7 @@ func (s *c35Session) notify(id cppki.TRCID, kind string, script map[int]string) 
 		case firstFault > 0 && ser == firstFault:
 			s.viol("C35:stored-unverified/"+faultKind, fmt.Sprintf("S%d was stored although the remote delivered %q for it", ser, faultKind))
 		case firstFault > 0 && ser > firstFault:
-			s.viol("C35:continued-after-failure/"+faultKind, fmt.Sprintf("S%d was stored although S%d could not be fetched/verified (%s)", ser, firstFault, faultKind))
+			s.viol("C35:continued-after-failure/"+faultKind, fmt.Sprintf("S%d was stored although the update had to stop at S%d, which could not be fetched, verified or stored (%s)", ser, firstFault, faultKind))
 		default:
 			s.viol("C35:unexpected-trc-stored", fmt.Sprintf("S%d stored without a reason", ser))
 		}
@@ -374,6 +494,10 @@ func (s *c35Session) notify(id cppki.TRCID, kind string, script map[int]string) 
 	lt, lerr := s.db.DB.SignedTRC(ctx, cppki.TRCID{ISD: c35ISD, Base: scrypto.LatestVer, Serial: scrypto.LatestVer})
 	if lerr != nil || int(lt.TRC.ID.Serial) < prevLatest || lt.TRC.ID.Base != 1 {
 		s.viol("C35:latest-regressed", fmt.Sprintf("latest is %v (err %v) after it was S%d", lt.TRC.ID, lerr, prevLatest))
+	}
+	if !s.dead && prevStorageFault && firstFault == 0 && s.latest > prevLatest && s.latest == int(id.Serial) {
+		s.r.Class("store-fault/fault-free-retry-completes-succession")
+		s.r.Event("store_fault_retry_completed")
 	}
 }
 
@@ -537,12 +661,15 @@ func runC35Load(r *mon.Run, pool *gen.Pool, rng *rand.Rand, idx int, edge bool) 
 func checkC35(r *mon.Run) {
 	r.Level = "fault_enumeration"
 	r.Rule = "real trust.FetchingProvider + sqlite trust DB + scripted remote. Enumeration: for every update distance d<=4 and EVERY " +
-		"subset of failing positions, every fault kind (14: corrupted/missing/forged votes, below quorum, digest mismatch, vote by root, " +
-		"skipped/same serial, base reset, other base, other ISD, stale, ahead, fetch error) from PRNG-chosen initial stores; plus random " +
+		"subset of failing positions, every fault kind (15: corrupted/missing/forged votes, below quorum, digest mismatch, vote by root, " +
+		"skipped/same serial, base reset, other base, other ISD, stale, ahead, fetch error) and the storage fault db-write-error (genuine TRC " +
+		"delivered, its InsertTRC fails) from PRNG-chosen initial stores; storage seam: per d<=4 the write of each single position / the first " +
+		"write / every write / every read of a call fails (synthetic or expired-context sqlite error), for one or two calls, then a fault-free retry; plus random " +
 		"notification histories (stale/current/next/future/beyond-available serials, other base numbers, unknown ISD) with per-call fault " +
 		"scripts; after EVERY call the DB TRC set, insertion order and fetch log are compared with the succession model. LoadTRCs/TRCLoader " +
 		"on temp dirs with past- and future-dated TRC files (DER/PEM). class = phase × notification kind × outcome × stopping fault"
 	r.Assumptions = []string{
+		"a TRC whose DB write failed is not stored: the update has to stop there exactly as for a fetch or verification failure, and a later fault-free notification completes the succession",
 		"every broken variant is, by construction of the generator, not a verified successor under doc/cryptography/trc.rst (votes, quorum, serial, base, ISD)",
 		"the scripted remote serves by serial number and ignores the requested base: a notification with a foreign base must be stopped by the engine",
 		"error return values of NotifyTRC are recorded, not judged",
@@ -583,6 +710,7 @@ func checkC35(r *mon.Run) {
 					}
 					hist := &c35Hist{Phase: "enum", Case: caseNo, Initial: init}
 					s := newC35Session(r, w, init, hist)
+					s.dbViaCtx = rng.IntN(2) == 0 // flavour of the write faults of the script, if any
 					s.notify(c35ID(c35ISD, 1, l0+d), fmt.Sprintf("d=%d/faults@%s", d, strings.Join(pos, ",")), script)
 					// a retry without faults must complete the succession from where it stopped
 					s.notify(c35ID(c35ISD, 1, l0+d), "retry-after-enum", nil)
@@ -592,6 +720,54 @@ func checkC35(r *mon.Run) {
 					s.close()
 					caseNo++
 					r.Event("enum_case")
+				}
+			}
+		}
+	}
+	// ---- phase 1b: the storage seam. For every distance d<=4: the write of every
+	// single position fails (the later ones would succeed), the first write of the
+	// call fails, every write fails, every read fails; each in both flavours, from
+	// PRNG-chosen initial stores; the fault persists for a second call or not;
+	// then a fault-free retry must complete the succession.
+	for d := 1; d <= 4; d++ {
+		type sf struct {
+			mode string
+			pos  int
+		}
+		var list []sf
+		for p := 1; p <= d; p++ {
+			list = append(list, sf{"", p})
+		}
+		for _, m := range c35DBModes {
+			list = append(list, sf{m, 0})
+		}
+		for _, f := range list {
+			for _, viaCtx := range []bool{false, true} {
+				for rep := 0; rep < perSubset; rep++ {
+					init := initials[rng.IntN(len(initials))]
+					l0 := init[len(init)-1]
+					if l0+d+1 > N {
+						init, l0 = []int{1}, 1
+					}
+					script := map[int]string{}
+					label := f.mode
+					if f.mode == "" {
+						script[l0+f.pos] = c35WriteFault
+						label = fmt.Sprintf("write-serial@%d", f.pos)
+					}
+					hist := &c35Hist{Phase: "enum-store", Case: caseNo, Initial: init}
+					s := newC35Session(r, w, init, hist)
+					for n := 1 + rng.IntN(2); n > 0; n-- {
+						s.dbMode, s.dbViaCtx = f.mode, viaCtx
+						s.notify(c35ID(c35ISD, 1, l0+d), fmt.Sprintf("d=%d/%s", d, label), script)
+					}
+					s.notify(c35ID(c35ISD, 1, l0+d), "retry-after-enum", nil)
+					if r.WantSample() && caseNo%37 == 5 {
+						r.Sample(hist)
+					}
+					s.close()
+					caseNo++
+					r.Event("enum_store_case")
 				}
 			}
 		}
@@ -636,6 +812,10 @@ func checkC35(r *mon.Run) {
 					script[l+1+rng.IntN(4)] = pick(rng, c35Faults)
 				}
 			}
+			if rng.IntN(4) == 0 {
+				s.dbMode = pick(rng, c35DBModes)
+			}
+			s.dbViaCtx = rng.IntN(2) == 0
 			s.notify(id, kind, script)
 		}
 		if r.WantSample() && h%53 == 9 {
@@ -655,6 +835,12 @@ func checkC35(r *mon.Run) {
 	if r.Events("premise_started_trc_not_loaded") == 0 {
 		r.Class("premise/started-trcs-loaded")
 	}
-	r.RequireClasses("premise/started-trcs-loaded", "load/latest/serial>=10", "history/late-insert")
-	r.Require(int64(caseNo), 60, "enum_case", "history", "notify_advanced", "notify_unchanged", "load_future_ignored", "load_current_loaded", "latest_checked", "load_latest_checked")
+	r.RequireClasses("premise/started-trcs-loaded", "load/latest/serial>=10", "history/late-insert",
+		"store-fault/write-serial/intermediate-step/next-write-would-succeed", "store-fault/write-serial/last-step",
+		"store-fault/write-once/intermediate-step/next-write-would-succeed", "store-fault/write-always/intermediate-step",
+		"store-fault/read-error/intermediate-step", "store-fault/write-serial/expired-context", "store-fault/write-serial/synthetic-error",
+		"store-fault/read-error/expired-context", "store-fault/fault-free-retry-completes-succession")
+	r.Require(int64(caseNo), 60, "enum_case", "enum_store_case", "history", "notify_advanced", "notify_unchanged", "load_future_ignored",
+		"load_current_loaded", "latest_checked", "load_latest_checked", "db_write_fault_injected", "db_read_fault_injected",
+		"store_fault_stopped_update", "store_fault_retry_completed")
 }
